@@ -11,8 +11,9 @@ def main(tier, seed):
     for mode in ("parallel", "sequence"):
         for n in lens:
             for inner in (1, 2):
-                for pol in pols:
-                    jobs.append(("props.gen", "generated", ("C16", mode, n, inner, pol, 60 if tier == "quick" else 2000)))
+                # thorough: every service order up to 2 list elements; 3 elements under FIFO and LIFO (the orders of 6+ simultaneously open acts explode)
+                for pol in (pols if (tier == "quick" or n <= 2) else ("fifo", "lifo")):
+                    jobs.append(("props.gen", "generated", ("C16", mode, n, inner, pol, 60 if tier == "quick" else 1500)))
     for outer in ("parallel", "sequence"):
         for inner in ("parallel", "sequence"):
             jobs.append(("props.gen", "nested", ("C16", outer, inner, "fifo", 20)))
